@@ -1953,8 +1953,19 @@ def WfEcl (fmt : EclFmt) (e : EclFile) : Prop :=
   (∀ s ∈ e.subs, ∀ i ∈ s, Stored fmt.ecl i ∧ NotTerminalLooking fmt.ecl i) ∧
   (∀ s ∈ e.timelines, ∀ i ∈ s, Stored fmt.tl i ∧ NotTerminalLooking fmt.tl i)
 
-/-- the two 16-bit counts of the header; **not checked by the writer** (`len() as u16`) -/
-def EclCountsFit (e : EclFile) : Prop := e.subs.length < 65536 ∧ e.timelines.length < 65536
+/-- what `u16::try_from` of the two counts (d14e963) guarantees once the writer got past it -/
+theorem eclCountsCheck_ok {kind : TlKind} {e : EclFile} {u : Unit} (h : eclCountsCheck kind e = .ok u) :
+    e.subs.length ≤ 65535 ∧ ((∀ cap, kind ≠ .eosd cap) → e.timelines.length ≤ 65535) := by
+  unfold eclCountsCheck at h
+  split at h
+  · cases h
+  · refine ⟨by omega, ?_⟩
+    intro hk
+    split at h
+    · rename_i cap; exact absurd rfl (hk cap)
+    · split at h
+      · cases h
+      · omega
 
 theorem eclAfterMagic_write (fmt : EclFmt) (hg : GoodEclFmt fmt) (x : Bytes) :
     eclAfterMagic fmt (eclMagicBytes fmt ++ x) = .ok x := by
@@ -2024,20 +2035,20 @@ theorem eclCounts_length (kind : TlKind) (e : EclFile) : (eclCounts kind e).leng
 
 theorem take_append_left {α} (l r : List α) : (l ++ r).take l.length = l := by simp
 
-/-- **old ECL round trip** (TH06-TH095): a well-formed file that `write_olde_ecl` accepts, whose sub
-and timeline counts fit their 16-bit header fields and which is smaller than 4 GiB, is read back by
-`read_olde_ecl` as exactly the same subs and timelines.  The hypothesis `EclCountsFit` is NOT
-implied by a successful write: the writer narrows both counts with `as u16` without a check
-(`ecl_write_count_truncation`), a genuine defect. -/
+/-- **old ECL round trip** (TH06-TH095): a well-formed file that `write_olde_ecl` accepts and that
+is smaller than 4 GiB is read back by `read_olde_ecl` as exactly the same subs and timelines.
+No hypothesis about the counts any more: since d14e963 a successful write implies that both fit
+their 16-bit header fields (`eclCountsCheck_ok`, `ecl_write_ok_counts_fit`). -/
 theorem ecl_read_write (fmt : EclFmt) (hg : GoodEclFmt fmt) (e : EclFile) (bs : Bytes)
-    (hw : writeEcl fmt e = .ok bs) (hwf : WfEcl fmt e) (hc : EclCountsFit e) (hlen : bs.length < 2 ^ 32) :
+    (hw : writeEcl fmt e = .ok bs) (hwf : WfEcl fmt e) (hlen : bs.length < 2 ^ 32) :
     readEcl fmt bs = .ok e := by
-  obtain ⟨hc1, hc2⟩ := hc
   unfold writeEcl at hw
   repeat' split at hw
   all_goals first | (cases hw; done) | skip
-  rename_i maxTl hmax hmany _ sb subOffs hsubs _ tb tlOffs htls
+  rename_i maxTl hmax hmany _ _ hcheck _ sb subOffs hsubs _ tb tlOffs htls
   cases hw
+  obtain ⟨hc1', hc2'⟩ := eclCountsCheck_ok hcheck
+  have hc1 : e.subs.length < 65536 := by omega
   obtain ⟨blobsS, hbS, rfl, rfl⟩ := writeScriptList_spec _ _ _ _ _ hsubs
   obtain ⟨blobsT, hbT, rfl, rfl⟩ := writeScriptList_spec _ _ _ _ _ htls
   obtain ⟨tlOffs, htlOffs⟩ : ∃ t, t = offsetsFrom (eclBase fmt e + blobsS.flatten.length) (blobsT.map List.length) := ⟨_, rfl⟩
@@ -2092,6 +2103,8 @@ theorem ecl_read_write (fmt : EclFmt) (hg : GoodEclFmt fmt) (e : EclFile) (bs : 
     have hcap0 : ¬ cap = 0 := by omega
     rw [if_neg hcap0] at hmax
     cases hmax
+    have hc2 : e.timelines.length < 65536 := by
+      have := hc2' (by intro c hc; rw [hk] at hc; cases hc); omega
     simp only [eclTooMany, decide_eq_true_eq, Nat.not_lt] at hmany
     have hres : resize0 cap (tlOffs ++ [eclBase fmt e + blobsS.flatten.length + blobsT.flatten.length]) =
         (tlOffs ++ [eclBase fmt e + blobsS.flatten.length + blobsT.flatten.length]) ++ List.replicate (cap - (tlOffs.length + 1)) 0 := by
@@ -2121,6 +2134,8 @@ theorem ecl_read_write (fmt : EclFmt) (hg : GoodEclFmt fmt) (e : EclFile) (bs : 
     simp only [eclAssemble, eclTlTable, eclCounts, eclWriteTlArrayLen, hk, hres]
     exact hcore
   | pofv =>
+    have hc2 : e.timelines.length < 65536 := by
+      have := hc2' (by intro c hc; rw [hk] at hc; cases hc); omega
     have hres : resize0 e.timelines.length tlOffs = tlOffs ++ List.replicate 0 0 := by
       have := resize0_eq e.timelines.length tlOffs (by omega)
       rw [this, htl_len]; simp
@@ -2178,15 +2193,38 @@ def tlLimitOk (kind : TlKind) (n : Nat) : Prop :=
   | .pcb cap => n ≤ cap - 1
   | .pofv => True
 
-/-- everything `write_olde_ecl` checks: the number of timelines against the game's limit and every
-instruction against its header.  (The two 16-bit counts are not among them.) -/
+/-- the two counts fit their 16-bit header fields (the timeline count is only stored by TH07 and later) -/
+def eclCountsOk (kind : TlKind) (e : EclFile) : Prop :=
+  e.subs.length ≤ 65535 ∧ match kind with | .eosd _ => True | _ => e.timelines.length ≤ 65535
+
+theorem eclCountsCheck_decides (kind : TlKind) (e : EclFile) : Decides (eclCountsCheck kind e) (eclCountsOk kind e) := by
+  unfold eclCountsCheck eclCountsOk
+  by_cases h1 : e.subs.length > 65535
+  · rw [if_pos h1]
+    exact ⟨fun hg => absurd hg.1 (by omega), fun _ => ⟨_, rfl⟩⟩
+  · rw [if_neg h1]
+    cases kind with
+    | eosd cap => exact ⟨fun _ => ⟨_, rfl⟩, fun hn => absurd ⟨by omega, trivial⟩ hn⟩
+    | pcb cap =>
+      simp only
+      by_cases h2 : e.timelines.length > 65535
+      · rw [if_pos h2]; exact ⟨fun hg => absurd hg.2 (by omega), fun _ => ⟨_, rfl⟩⟩
+      · rw [if_neg h2]; exact ⟨fun _ => ⟨_, rfl⟩, fun hn => absurd ⟨by omega, by omega⟩ hn⟩
+    | pofv =>
+      simp only
+      by_cases h2 : e.timelines.length > 65535
+      · rw [if_pos h2]; exact ⟨fun hg => absurd hg.2 (by omega), fun _ => ⟨_, rfl⟩⟩
+      · rw [if_neg h2]; exact ⟨fun _ => ⟨_, rfl⟩, fun hn => absurd ⟨by omega, by omega⟩ hn⟩
+
+/-- everything `write_olde_ecl` has to fit: the number of timelines within the game's limit, both
+counts in their 16-bit header fields, every instruction in its header -/
 def EclFits (fmt : EclFmt) (e : EclFile) : Prop :=
-  tlLimitOk fmt.kind e.timelines.length ∧ (∀ s ∈ e.subs, ∀ i ∈ s, fits fmt.ecl i = true) ∧
+  tlLimitOk fmt.kind e.timelines.length ∧ eclCountsOk fmt.kind e ∧ (∀ s ∈ e.subs, ∀ i ∈ s, fits fmt.ecl i = true) ∧
   ∀ s ∈ e.timelines, ∀ i ∈ s, fits fmt.tl i = true
 
-/-- **old ECL: the writer fails exactly when there are too many timelines for the game or an
-instruction does not fit its header, and never panics.**  It does NOT fail when a count does not
-fit its 16-bit field (`ecl_write_count_truncation`). -/
+/-- **old ECL: the writer fails exactly when there are too many timelines for the game, a count
+does not fit its 16-bit field, or an instruction does not fit its header, and never panics** -
+the full statement: before d14e963 the counts were narrowed with `as u16` without a check. -/
 theorem ecl_write_err_iff (fmt : EclFmt) (hg : GoodEclFmt fmt) (e : EclFile) :
     Decides (writeEcl fmt e) (EclFits fmt e) := by
   have hcap := hg.cap
@@ -2204,55 +2242,56 @@ theorem ecl_write_err_iff (fmt : EclFmt) (hg : GoodEclFmt fmt) (e : EclFile) :
   by_cases h0 : tlLimitOk fmt.kind e.timelines.length
   · have : ¬ eclTooMany maxTl e = true := fun h => (hiff.1 h) h0
     rw [if_neg this]
-    have hS := writeScriptList_decides fmt.ecl e.subs (eclBase fmt e)
-    by_cases h1 : ∀ s ∈ e.subs, ∀ i ∈ s, fits fmt.ecl i = true
-    · obtain ⟨⟨sb, so⟩, hp⟩ := hS.1 h1
-      simp only [hp]
-      have hT := writeScriptList_decides fmt.tl e.timelines (eclBase fmt e + sb.length)
-      by_cases h2 : ∀ s ∈ e.timelines, ∀ i ∈ s, fits fmt.tl i = true
-      · obtain ⟨⟨tb, to⟩, hq⟩ := hT.1 h2
-        simp only [hq]
-        exact ⟨fun _ => ⟨_, rfl⟩, fun hn => absurd ⟨h0, h1, h2⟩ hn⟩
-      · obtain ⟨c, hq⟩ := hT.2 h2
-        simp only [hq]
-        exact ⟨fun hgd => absurd hgd.2.2 h2, fun _ => ⟨_, rfl⟩⟩
-    · obtain ⟨c, hp⟩ := hS.2 h1
-      simp only [hp]
-      exact ⟨fun hgd => absurd hgd.2.1 h1, fun _ => ⟨_, rfl⟩⟩
+    have hC := eclCountsCheck_decides fmt.kind e
+    by_cases hc : eclCountsOk fmt.kind e
+    · obtain ⟨u, hu⟩ := hC.1 hc
+      simp only [hu]
+      have hS := writeScriptList_decides fmt.ecl e.subs (eclBase fmt e)
+      by_cases h1 : ∀ s ∈ e.subs, ∀ i ∈ s, fits fmt.ecl i = true
+      · obtain ⟨⟨sb, so⟩, hp⟩ := hS.1 h1
+        simp only [hp]
+        have hT := writeScriptList_decides fmt.tl e.timelines (eclBase fmt e + sb.length)
+        by_cases h2 : ∀ s ∈ e.timelines, ∀ i ∈ s, fits fmt.tl i = true
+        · obtain ⟨⟨tb, to⟩, hq⟩ := hT.1 h2
+          simp only [hq]
+          exact ⟨fun _ => ⟨_, rfl⟩, fun hn => absurd ⟨h0, hc, h1, h2⟩ hn⟩
+        · obtain ⟨c, hq⟩ := hT.2 h2
+          simp only [hq]
+          exact ⟨fun hgd => absurd hgd.2.2.2 h2, fun _ => ⟨_, rfl⟩⟩
+      · obtain ⟨c, hp⟩ := hS.2 h1
+        simp only [hp]
+        exact ⟨fun hgd => absurd hgd.2.2.1 h1, fun _ => ⟨_, rfl⟩⟩
+    · obtain ⟨c, hu⟩ := hC.2 hc
+      simp only [hu]
+      exact ⟨fun hgd => absurd hgd.2.1 hc, fun _ => ⟨_, rfl⟩⟩
   · have : eclTooMany maxTl e = true := hiff.2 h0
     rw [if_pos this]
     exact ⟨fun hgd => absurd hgd.1 h0, fun _ => ⟨_, rfl⟩⟩
 
-theorem u16_add_65536 (n : Nat) : u16 (n + 65536) = u16 n := by
-  simp only [u16]
-  congr 2
-  · omega
-  · congr 1; omega
+/-- **No silent truncation of the counts any more** (d14e963): whatever `write_olde_ecl` accepts has
+at most 65535 subs, and at most 65535 timelines where the count is stored (TH06 stores none and
+allows one timeline).  Before the repair two files whose sub counts differed by 65536 got the same
+count words (65537 subs compiled with exit status 0 and read back as 1). -/
+theorem ecl_write_ok_counts_fit (fmt : EclFmt) (hg : GoodEclFmt fmt) (e : EclFile) (bs : Bytes)
+    (hw : writeEcl fmt e = .ok bs) : e.subs.length < 65536 ∧ e.timelines.length < 65536 := by
+  have hfit := (ecl_write_err_iff fmt hg e)
+  have hgood : EclFits fmt e := by
+    apply Classical.byContradiction
+    intro hn
+    obtain ⟨c, hc⟩ := hfit.2 hn
+    rw [hc] at hw
+    cases hw
+  obtain ⟨h0, ⟨h1, h2⟩, _⟩ := hgood
+  refine ⟨by omega, ?_⟩
+  cases hk : fmt.kind with
+  | eosd cap => rw [hk] at h0; simp only [tlLimitOk] at h0; omega
+  | pcb cap => rw [hk] at h2; simp only at h2; omega
+  | pofv => rw [hk] at h2; simp only at h2; omega
 
-/-- **Silent truncation of the sub count** (a genuine defect, replayed on the implementation: 65537
-subs compile with exit status 0 and read back as 1 sub): two files whose sub counts differ by
-65536 get the same count words in the header. -/
-theorem ecl_write_count_truncation (kind : TlKind) (e e' : EclFile) (h : e'.subs.length = e.subs.length + 65536)
-    (ht : e'.timelines.length = e.timelines.length) : eclCounts kind e' = eclCounts kind e := by
-  cases kind <;> simp only [eclCounts, h, ht, u16_add_65536]
-
-/-- the full statement of "the writer errors exactly when something does not fit": FALSE for old ECL -/
-def ecl_write_err_iff_full : Prop :=
-  ∀ (fmt : EclFmt) (e : EclFile), GoodEclFmt fmt → (∃ bs, writeEcl fmt e = .ok bs) → e.subs.length < 65536
-
-theorem ecl_write_err_iff_full_false : ¬ ecl_write_err_iff_full := by
-  intro h
-  have hfit : EclFits eclTh06 { subs := List.replicate 65536 [], timelines := [] } := by
-    refine ⟨?_, ?_, ?_⟩
-    · simp [tlLimitOk, eclTh06]
-    · intro s hs i hi
-      rw [List.eq_of_mem_replicate hs] at hi
-      cases hi
-    · intro s hs
-      cases hs
-  have := h eclTh06 _ goodEclTh06 ((ecl_write_err_iff eclTh06 goodEclTh06 _).1 hfit)
-  simp only [List.length_replicate] at this
-  omega
+/-- a TH07 file with 65536 subs is refused with "too many subs!" (it used to be written with a count of 0) -/
+theorem ecl_write_rejects_65536_subs (subs : List (List Instr)) (h : subs.length = 65536) :
+    writeEcl eclTh07 { subs := subs, timelines := [[]] } = .err tooManySubs := by
+  simp [writeEcl, eclTh07, TlKind.maxTimelines, eclTooMany, eclCountsCheck, h]
 
 /-! ### non-vacuity: concrete files satisfying the hypotheses of the round trips -/
 
@@ -2264,7 +2303,7 @@ def eclExample : EclFile :=
 set_option maxRecDepth 100000 in
 example : ∃ bs, writeEcl eclTh07 eclExample = .ok bs ∧ readEcl eclTh07 bs = .ok eclExample := by
   refine ⟨_, rfl, ?_⟩
-  refine ecl_read_write eclTh07 goodEclTh07 eclExample _ rfl ⟨?_, ?_⟩ ⟨by decide, by decide⟩ (by decide)
+  refine ecl_read_write eclTh07 goodEclTh07 eclExample _ rfl ⟨?_, ?_⟩ (by decide)
   · intro s hs i hi
     simp only [eclExample, List.mem_cons, List.not_mem_nil, or_false] at hs
     rcases hs with rfl | rfl
